@@ -66,9 +66,23 @@ SelWeight(s) == Len(s.t) + Len(s.a) * 3 + Len(s.ks) * 5 +
 \* C07 / C14: every selector that compiles, every graph, no controls
 \* (sharded by graph, so that each shard builds the selector set once)
 MyGraphs == {gi \in DOMAIN Graphs : gi % NShards = Shard}
+\* shapes beyond the depth bound that the enumeration cannot reach: a recursion whose body is a union with a BARE edge
+\* next to members that explore (the edge member is asked to Explore), edges at several depths of one recursion,
+\* a recursion inside a recursion
+ExtraSels(g) ==
+  UNION {{SRec(l, -1, SUnion(<<SEdge, SAll(SMatch)>>)), SRec(l, -1, SUnion(<<SAll(SEdge), SEdge>>)),
+          SRec(l, -1, SUnion(<<SMatch, SEdge, SFields(<<a>>, <<SAll(SEdge)>>)>>)),
+          SRec(l, -1, SAll(SUnion(<<SEdge, SAll(SEdge)>>))),
+          SRec(l, -1, SUnion(<<SAll(SEdge), SFields(<<a>>, <<SRec(1, -1, SUnion(<<SMatch, SAll(SEdge)>>))>>)>>))}
+         : l \in Limits}
+  \* a stop-at condition that has to survive the steps of a sequence that are NOT edges
+  \cup UNION {{SRec(l, st, SAll(SAll(SEdge))), SRec(l, st, SFields(<<a>>, <<SAll(SEdge)>>)),
+               SRec(l, st, SAll(SFields(<<a>>, <<SEdge>>))), SRec(l, st, SUnion(<<SMatch, SAll(SAll(SEdge))>>)),
+               SRec(l, st, SFields(<<a, b>>, <<SAll(SEdge), SEdge>>))}
+              : l \in Limits, st \in Stops(g) \ {-1}}
 CasesPlain ==
   UNION {{[g |-> Graphs[gi], sel |-> s, cfg |-> NoCfg] :
-            s \in {x \in Closed(SelDepth, Graphs[gi]) : Compiles(x, FALSE)}}
+            s \in {x \in Closed(SelDepth, Graphs[gi]) \cup ExtraSels(Graphs[gi]) : Compiles(x, FALSE)}}
          : gi \in MyGraphs}
 
 \* C07 again, under visit-links-once: the same selectors on the graphs that have links (a link that is met first where
@@ -103,6 +117,12 @@ Cfgs(g) ==
 
 CasesCtl ==
   UNION {{[g |-> Graphs[gi], sel |-> s, cfg |-> cf] : s \in CtlSels(Graphs[gi]), cf \in Cfgs(Graphs[gi])}
+         : gi \in MyGraphs}
+
+\* C15, thorough tier: the controls over a hashed sample of ALL depth-2 selectors
+CasesCtl2 ==
+  UNION {{[g |-> Graphs[gi], sel |-> s, cfg |-> cf] :
+            s \in {x \in Closed(2, Graphs[gi]) : SelWeight(x) % 41 = Sample /\ Compiles(x, FALSE)}, cf \in Cfgs(Graphs[gi])}
          : gi \in MyGraphs}
 
 \* subset matchers with every sign combination of the bounds, on their own and under recursion
